@@ -14,13 +14,15 @@ Quick == Tier = "quick"
 Pow(j) == IF j >= 0 THEN R(2 ^ j, 0, 0) ELSE R(1, 0, -j)         \* 2^j in the ring
 ScaleVal(sg, j) == IF sg = 1 THEN RNeg(Pow(j)) ELSE Pow(j)
 Signs3 == {<<a, b, c>> : a, b, c \in {0, 1}}
-Mags3 == IF Quick THEN {<<0, 1, -1>>, <<2, -2, 1>>} ELSE {<<0, 0, 0>>, <<0, 1, -1>>, <<2, -2, 1>>, <<1, 2, 0>>, <<-1, -1, -2>>}
+\* exponents of the three scale magnitudes; 2^-10 .. 2^10 spans the property's [1e-3, 1e3]
+Mags3 == IF Quick THEN {<<0, 1, -1>>, <<2, -2, 1>>, <<-10, -10, -9>>, <<10, -10, 0>>}
+         ELSE {<<0, 0, 0>>, <<0, 1, -1>>, <<2, -2, 1>>, <<1, 2, 0>>, <<-1, -1, -2>>, <<-10, -10, -9>>, <<10, -10, 0>>, <<9, 10, 10>>, <<-10, 3, 10>>}
 Seeds3 == IF Quick THEN {<<a, b, c>> \in (-3..4) \X (-3..4) \X (-3..4) : (a + 2 * b + 3 * c + Seed) % 29 = 0}
           ELSE {<<a, b, c>> \in (-3..4) \X (-3..4) \X (-3..4) : (a + 2 * b + 3 * c + Seed) % 5 = 0}
-Trans3 == {<<1, -2, 3>>, <<0, 0, 0>>}
+Trans3 == {<<1, -2, 3>>, <<0, 0, 0>>, <<3, -5, 7>>, <<-40, 24, 12>>}
 Calls ==
          [kind : {"srt3"}, seed : Seeds3, sg : Signs3, mag : Mags3, t : Trans3, j : {0}]
-    \cup [kind : {"srt2"}, seed : {<<0, 0, 0>>}, sg : {<<a, b, 0>> : a, b \in {0, 1}}, mag : Mags3, t : {<<5, -7, 0>>, <<0, 0, 0>>}, j : -3..4]
+    \cup [kind : {"srt2"}, seed : {<<0, 0, 0>>}, sg : {<<a, b, 0>> : a, b \in {0, 1}}, mag : Mags3, t : {<<5, -7, 0>>, <<0, 0, 0>>, <<-48, 96, 0>>}, j : -3..4]
 
 Eval(c) ==
     IF c.kind = "srt3" THEN
@@ -46,7 +48,8 @@ Emit == ph = "ret" => PrintT(<<"CASE", ToJson([fam |-> "srt", kind |-> call.kind
 
 \* the composed linear part has determinant product(s) and orthogonal columns of the given lengths
 SrtTheorems ==
-    (ph = "ret" /\ call.kind = "srt3") =>
+    \* (checked where the ring's 31-bit integers can hold the determinant: magnitudes 2^-3 .. 2^3)
+    (ph = "ret" /\ call.kind = "srt3" /\ \A i \in 1..3 : call.mag[i] \in -3..3) =>
         LET L == res.lin  s == res.scale IN
         /\ RDet(L) = RMul(RMul(s[1], s[2]), s[3])
         /\ (RSign(RDet(L)) < 0) = res.detneg
